@@ -1504,7 +1504,7 @@ pub fn dec_add_one(s: &str) -> String {
 // C09: version matrix
 // ---------------------------------------------------------------------------------------------
 pub const OPERATORS: &[(&str, &str)] = &[("none", ""), ("caret", "^"), ("tilde", "~"), ("equals", "="), ("greater-equal", ">="), ("greater", ">")];
-pub const PLACEMENTS: &[&str] = &["none", "before", "after", "both", "after-definition", "at-end", "comment-after-version", "comment-before-version", "line-comment-after-version", "experimental-version-like-before", "block-comment-with-slashes", "multi-line-block-comment"];
+pub const PLACEMENTS: &[&str] = &["none", "before", "after", "both", "after-definition", "at-end", "comment-after-version", "comment-before-version", "line-comment-after-version", "experimental-version-like-before", "block-comment-with-slashes", "multi-line-block-comment", "tab-after-operator", "newline-after-operator", "spaces-around-version"];
 
 pub fn c09_bodies() -> Vec<(&'static str, String)> {
     let s31 = "a".repeat(31);
@@ -1560,6 +1560,9 @@ pub fn c09_file(version: Option<(u32, u32, u32)>, op: &str, placement: &str, bod
             "comment-before-version" => src.push_str(&format!("pragma solidity /* not {} */ {}{}.{}.{};\n", other, op, a, b, c)),
             "line-comment-after-version" => src.push_str(&format!("pragma solidity {}{}.{}.{} // {}\n;\n", op, a, b, c, other)),
             "block-comment-with-slashes" => src.push_str(&format!("pragma solidity /* see https://x.y/{} */ {}{}.{}.{} /* was {} // bumped */;\n", other, op, a, b, c, other)),
+            "tab-after-operator" => src.push_str(&format!("pragma solidity\t{}\t{}.{}.{}\t;\n", op, a, b, c)),
+            "newline-after-operator" => src.push_str(&format!("pragma solidity {}\n    {}.{}.{}\n;\n", op, a, b, c)),
+            "spaces-around-version" => src.push_str(&format!("pragma   solidity   {}   {}.{}.{}   ;\n", op, a, b, c)),
             "multi-line-block-comment" => src.push_str(&format!("pragma solidity {}{}.{}.{} /* was\n {}\n */;\n", op, a, b, c, other)),
             _ => src.push_str(&format!("pragma solidity {}{}.{}.{};\n", op, a, b, c)),
         }
